@@ -269,6 +269,19 @@ for _p, _f, _k in (
 ):
     PRIMS.append((_p, _f, _k))
 
+# the ROOT segment itself is a bracketed nested path (seed c12-10A): `[true]` looks up the variable named by
+# the value of the variable `true`; the serialiser has a separate branch for a Path in root position
+for _w in RESERVED_VARS:
+    PRIMS.append((f"[{_w}]", "path-root-nested-reserved", "any"))
+for _p, _f, _k in (
+    ("[a.k]", "path-root-nested", "any"), ("[a.k].size", "path-root-nested-then-dot", "any num"),
+    ("[e.g][0]", "path-root-nested-then-index", "any"), ("[nil].size", "path-root-nested-reserved-then-dot", "any num"),
+    ("[e[with]]", "path-root-nested-reserved-twice", "any"), ("[[true]]", "path-root-nested-reserved-twice", "any"),
+    ("[a[for]]", "path-root-nested-reserved-twice", "any"), ("a[[true]]", "path-nested-root-nested-reserved", "any"),
+    ("[x.if]", "path-root-nested-reserved-later-segment", "any"),
+):
+    PRIMS.append((_p, _f, _k))
+
 _NOT_IN_LIQUID_LINE: set[str] = set()  # primitives containing a literal newline (none above)
 
 
